@@ -29,7 +29,7 @@ DEFAULT_FEATS = {
     'complete_routes': True, 'guards': True, 'commands': True,
     'defaults': True, 'publish': True, 'multi_start': True,
     'jinja': True, 'pause_cmd': False, 'cycles': True,
-    'expr_failures': True,
+    'expr_failures': True, 'state_commands': True,
 }
 
 
@@ -179,6 +179,8 @@ def gen_direct(D, F=None, max_tasks=8, prefix='t', name='wf'):
             src = D.choice(names)
             clause = draw_clause()
             cmds = ['fail', 'succeed', 'noop']
+            if not F.get('state_commands', True):
+                cmds = ['noop']
             if F['pause_cmd']:
                 cmds.append('pause')
             cmd = D.choice(cmds)
@@ -634,7 +636,12 @@ def gen_nested(D, F=None, max_tasks=6):
         nm = D.choice(subs[0]['order'])
         subs[0]['tasks'][nm]['workflow'] = 'sub1'
     cands = [nm for nm in parent['order']
-             if not parent['tasks'][nm].get('bad')]
+             if not parent['tasks'][nm].get('bad')
+             and (F.get('wi_subwf', True)
+                  or not parent['tasks'][nm].get('with-items'))]
+    if not cands:
+        parent['subs'] = subs
+        return parent, outc
     k = D.int(1, min(2, len(cands)))
     for nm in D.subset(cands, k, k):
         parent['tasks'][nm]['workflow'] = 'sub%d' % D.int(0, nsubs - 1)
